@@ -2059,7 +2059,15 @@ class unyt_array(np.ndarray):
         if unit is None:
             out_arr = np.array(out_arr, copy=_COPY_IF_NEEDED)
         elif ufunc in (modf, divmod_):
-            out_arr = tuple(ret_class(o, unit) for o in out_arr)
+            if issubclass(ret_class, unyt_quantity):
+                # as below: avoid creating a unyt_quantity with size > 1
+                ret_class = unyt_array
+            out_arr = tuple(
+                unyt_quantity(np.asarray(o), unit)
+                if o.shape == ()
+                else ret_class(o, unit)
+                for o in out_arr
+            )
         elif out_arr.shape == ():
             out_arr = unyt_quantity(np.asarray(out_arr), unit)
         elif out_arr.size == 1:
